@@ -48,11 +48,11 @@ theorem accepted_addr_mem_candidates (L : Lst) (a : Local) (h : accepted L a) : 
   · by_cases hu : a.unix = true
     · simp [hu, unixCandidates, h]
     · simp [hu, tcpCandidates, h]
-  · rcases h with ⟨hv, h⟩ | h
-    · simp [hu, tcpCandidates, h, v4wild, hv]
-    · simp [hu, tcpCandidates, h, v6wild]
+  · rcases h with h | h
+    · cases hv : a.v4 <;> simp [hu, tcpCandidates, h, v4wild, hv]
+    · cases hv : a.v4 <;> simp [hu, tcpCandidates, h, v6wild, hv]
 
-/-- and only addresses a listener serving that connection can have -/
+/-- and only addresses a listener that accepts such a connection can have -/
 theorem candidates_serve (a : Local) (s : String) (h : s ∈ candidates a) :
     s = a.str ∨ (a.unix = false ∧ (s = v4wild a ∨ s = v6wild a)) := by
   unfold candidates at h
